@@ -360,3 +360,198 @@ def rule_OP5(ctx, rep):
                 rep.ok('OP5', fnrec, prim[0], 'exponent passed unchanged to the powering primitive')
     if n < 4:
         raise AnalysisError(f'OP5: only {n} exponentiation operators found (expected >= 4)')
+
+
+# ---------------------------------------------------------------------------------- OP6
+SYMMETRIC_OPS = {'add', 'mul', 'eq', 'ne', 'and_', 'or_', 'xor'}
+MIRROR_OPS = {'lt': 'gt', 'le': 'ge', 'gt': 'lt', 'ge': 'le'}
+REFLECT_DUNDER = {'sub': '__rsub__', 'truediv': '__rtruediv__', 'floordiv': '__rfloordiv__', 'mod': '__rmod__', 'divmod': '__rdivmod__',
+                  'pow': '__rpow__', 'lshift': '__rlshift__', 'rshift': '__rrshift__', 'matmul': '__rmatmul__'}
+
+
+def _opname(e):
+    """operator.X -> 'X'; divmod -> 'divmod'."""
+    if isinstance(e, ast.Attribute) and isinstance(e.value, ast.Name) and e.value.id == 'operator':
+        return e.attr
+    if isinstance(e, ast.Name) and e.id == 'divmod':
+        return 'divmod'
+    return None
+
+
+def _module_dicts(tree):
+    """{name: ast.Dict} for dict literals bound at module level (also under `if np:`)."""
+    out = {}
+    for n in ast.walk(tree):
+        if isinstance(n, (ast.FunctionDef, ast.AsyncFunctionDef, ast.ClassDef)):
+            continue
+        if isinstance(n, ast.Assign) and len(n.targets) == 1 and isinstance(n.targets[0], ast.Name) and isinstance(n.value, ast.Dict):
+            out[n.targets[0].id] = n.value
+    return out
+
+
+def _input_index(e):
+    """inputs[k] -> k"""
+    if isinstance(e, ast.Subscript) and isinstance(e.value, ast.Name) and e.value.id == 'inputs':
+        return const_int(e.slice)
+    return None
+
+
+def _swapped_verdict(y, ret, dicts, opvar, ropvars):
+    """Is `ret` a correct way to evaluate ufunc-op y on (inputs[0], inputs[1]) given only inputs[1] is a secure object?
+    Returns (True/False/None, text)."""
+    if isinstance(ret, ast.Constant) and ret.value is NotImplemented or norm(ret) == 'NotImplemented':
+        return True, 'declined (NotImplemented)'
+    if not isinstance(ret, ast.Call):
+        return None, f'unrecognised result {norm(ret)}'
+    f, a = ret.func, ret.args
+    # getattr(inputs[1], rname)(inputs[0]) with rname looked up in a table of reflected method names
+    if isinstance(f, ast.Call) and isinstance(f.func, ast.Name) and f.func.id == 'getattr' and len(f.args) == 2 and len(a) == 1:
+        ri, ai = _input_index(f.args[0]), _input_index(a[0])
+        nm = f.args[1]
+        dunder = None
+        if isinstance(nm, ast.Constant) and isinstance(nm.value, str):
+            dunder = nm.value
+        elif isinstance(nm, ast.Name) and nm.id in ropvars and ropvars[nm.id] in dicts:
+            d = dicts[ropvars[nm.id]]
+            ent = [v for k, v in zip(d.keys, d.values) if _opname(k) == y]
+            if not ent:
+                return None, 'no entry'
+            if isinstance(ent[0], ast.Constant) and isinstance(ent[0].value, str):
+                dunder = ent[0].value
+        if dunder is None or ri != 1 or ai != 0:
+            return None, f'unrecognised reflected-method call {norm(ret)}'
+        if REFLECT_DUNDER.get(y) == dunder:
+            return True, f'{dunder} of the secure operand'
+        return False, f'`{y}` is delegated to {dunder}, which is not its reflected form'
+    # receiver.__rY__(other)
+    if isinstance(f, ast.Attribute) and f.attr.startswith('__') and len(a) == 1:
+        ri, ai = _input_index(f.value), _input_index(a[0])
+        if ri == 1 and ai == 0:
+            if REFLECT_DUNDER.get(y) == f.attr or (y in SYMMETRIC_OPS and f.attr in (f'__{y}__', f'__r{y}__')):
+                return True, f'{f.attr} of the secure operand'
+            return False, f'{norm(ret)} is not the reflected form of `{y}`'
+        if ri == 0 and ai == 1:
+            return (f.attr == f'__{y.rstrip("_")}__'), f'{norm(ret)}'
+        return None, f'unrecognised operands in {norm(ret)}'
+    if len(a) != 2:
+        return None, f'unrecognised call {norm(ret)}'
+    i0, i1 = _input_index(a[0]), _input_index(a[1])
+    if i0 is None or i1 is None:
+        return None, f'unrecognised operands in {norm(ret)}'
+    # which operator is applied?
+    applied = None
+    if isinstance(f, ast.Name) and f.id == opvar:
+        applied = ('op', y)
+    elif isinstance(f, ast.Name) and f.id in ropvars:
+        d = dicts.get(ropvars[f.id])
+        if d is None:
+            return None, f'table {ropvars[f.id]} not found'
+        ent = [v for k, v in zip(d.keys, d.values) if _opname(k) == y]
+        if not ent:
+            return None, 'no entry'       # caller continues with the next statement
+        v = ent[0]
+        if _opname(v):
+            applied = ('op', _opname(v))
+        elif isinstance(v, ast.Lambda) and len(v.args.args) == 2 and isinstance(v.body, ast.Call) and isinstance(v.body.func, ast.Attribute) \
+                and isinstance(v.body.func.value, ast.Name) and len(v.body.args) == 1 and isinstance(v.body.args[0], ast.Name):
+            p0, p1 = v.args.args[0].arg, v.args.args[1].arg
+            recv, arg = v.body.func.value.id, v.body.args[0].id
+            # map lambda params to inputs
+            m = {p0: i0, p1: i1}
+            if m.get(recv) == 1 and m.get(arg) == 0:
+                if REFLECT_DUNDER.get(y) == v.body.func.attr:
+                    return True, f'{v.body.func.attr} of the secure operand (table {ropvars[f.id]})'
+                return False, f'table {ropvars[f.id]} maps `{y}` to {v.body.func.attr}, which is not its reflected form'
+            return None, 'unrecognised lambda'
+        else:
+            return None, f'unrecognised table entry {norm(v)}'
+    elif _opname(f):
+        applied = ('op', _opname(f))
+    if applied is None:
+        return None, f'unrecognised callee in {norm(ret)}'
+    z = applied[1]
+    if (i0, i1) == (0, 1):
+        return (z == y), f'{z}(inputs[0], inputs[1])'
+    if (i0, i1) == (1, 0):
+        if y in SYMMETRIC_OPS and z == y:
+            return True, f'`{y}` is symmetric'
+        if MIRROR_OPS.get(y) == z:
+            return True, f'a {y} b evaluated as b {z} a'
+        return False, (f'`{y}` is evaluated as {z}(inputs[1], inputs[0]) with the operands exchanged although `{y}` is not symmetric: '
+                       f'np.{y}(x, a) with a plain x and a secure a returns {y}(a, x)')
+    return None, 'unrecognised operand order'
+
+
+def rule_OP6(ctx, rep):
+    """NumPy ufunc delegation of secure objects: when the secure object is the *second* input of a binary ufunc, the
+    operation must be carried out in its reflected form -- exchanged operands are correct only for symmetric
+    operators, comparisons need the mirrored comparison, and the other operators their __r<op>__ method."""
+    model = ctx.model
+    fn = model.func('sectypes::__array_ufunc__')
+    tree = model.trees['sectypes']
+    dicts = _module_dicts(tree)
+    if 'binary_ops' not in dicts:
+        raise AnalysisError('OP6: table binary_ops not found in sectypes')
+    ops = [_opname(v) for v in dicts['binary_ops'].values]
+    if any(o is None for o in ops) or len(ops) < 10:
+        raise AnalysisError('OP6: entries of binary_ops are not operator.<name> / divmod')
+    # the dispatch block: `if op := binary_ops.get(ufunc):`
+    blk = None
+    opvar = None
+    for s in iter_nodes(fn.node):
+        if isinstance(s, ast.If) and isinstance(s.test, ast.NamedExpr) and 'binary_ops' in norm(s.test.value):
+            blk, opvar = s.body, s.test.target.id
+    if blk is None:
+        for i, s in enumerate(fn.node.body):
+            if isinstance(s, ast.Assign) and 'binary_ops' in norm(s.value) and isinstance(s.targets[0], ast.Name):
+                opvar = s.targets[0].id
+                nxt = fn.node.body[i + 1] if i + 1 < len(fn.node.body) else None
+                if isinstance(nxt, ast.If) and norm(nxt.test) in (opvar, f'{opvar} is not None'):
+                    blk = nxt.body
+    if blk is None:
+        raise AnalysisError('OP6: dispatch on binary_ops not found in sectypes.__array_ufunc__')
+    for y in ops:
+        verdict, why, site = None, 'no statement handles this operator', blk[0]
+        for s in blk:
+            if isinstance(s, ast.If):
+                t = s.test
+                rets = [r for r in s.body if isinstance(r, ast.Return)]
+                if isinstance(t, ast.Call) and attr_tail(t.func) == 'isinstance' and _input_index(t.args[0]) == 0:
+                    continue                      # first input is the secure object: operand order preserved
+                ropvars = {}
+                hit = False
+                if isinstance(t, ast.Compare) and len(t.ops) == 1 and isinstance(t.left, ast.Name) and t.left.id == opvar:
+                    if isinstance(t.ops[0], (ast.Eq, ast.Is)):
+                        hit = _opname(t.comparators[0]) == y
+                    elif isinstance(t.ops[0], ast.In):
+                        c = t.comparators[0]
+                        if isinstance(c, (ast.Tuple, ast.List, ast.Set)):
+                            hit = y in [_opname(e) for e in c.elts]
+                        elif isinstance(c, ast.Name) and c.id in dicts:
+                            hit = y in [_opname(k) for k in dicts[c.id].keys]
+                            ropvars = {f'{c.id}[{opvar}]': c.id}
+                    else:
+                        verdict, why, site = None, f'unrecognised test {norm(t)}', s
+                        break
+                elif isinstance(t, ast.NamedExpr) and isinstance(t.value, ast.Call) and attr_tail(t.value.func) == 'get' \
+                        and isinstance(t.value.func.value, ast.Name) and t.value.func.value.id in dicts:
+                    d = t.value.func.value.id
+                    hit = y in [_opname(k) for k in dicts[d].keys]
+                    ropvars = {t.target.id: d}
+                else:
+                    verdict, why, site = None, f'unrecognised test {norm(t)}', s
+                    break
+                if hit and rets:
+                    verdict, why = _swapped_verdict(y, rets[0].value, dicts, opvar, ropvars)
+                    site = rets[0]
+                    break
+            elif isinstance(s, ast.Return):
+                verdict, why = _swapped_verdict(y, s.value, dicts, opvar, {})
+                site = s
+                break
+        if verdict is True:
+            rep.ok('OP6', fn, f'np.{y}(x, <secure>)', why, site)
+        elif verdict is False:
+            rep.bad('OP6', fn, f'np.{y}(x, <secure>)', why, site)
+        else:
+            rep.skip('OP6', fn, f'np.{y}(x, <secure>)', why, site)
